@@ -17,7 +17,7 @@ CFG = {
     "technique": "Coq proof (induction over record lists, byte-level round trip) + vm_compute correspondence check",
     "design_ref": "DESIGN.md §4 C07",
     "n_quick": 200, "n_thorough": 3000,
-    "rule": "four streams. (1) n random small inputs: triangle meshes (0-10 triangles; welded, unwelded identity, as many "
+    "rule": "five streams. (0) a fixed header stream: 33 free-form 80-byte header texts (solid/SOLID with leading blanks, ASCII-STL prologue, endsolid, near misses, NULs, UTF-8, 8-bit blobs, all-0xFF/space/newline) on complete two-record and empty files through Read/Write/ReadMesh; random byte strings draw their header from random bytes, ASCII-STL vocabulary text or these templates. (1) n random small inputs: triangle meshes (0-10 triangles; welded, unwelded identity, as many "
             "indices as vertices but permuted or with repeats, as many vertices as triangles; +-normals incl. far from unit "
             "length, +-Position, trailing partial triangle) through stl.WriteMesh/ReadMesh, and well-formed STL byte strings "
             "(0-8 records, arbitrary float bit patterns incl. NaN/-0, zero and non-zero stored normals; 1/10 truncated, "
